@@ -1078,12 +1078,15 @@ def apply_edit(c, env):
     if c["type"] not in ("-", "image", "segmentation"):
         info["data_type"] = c["type"]
     if c["enc"].startswith("bs"):
-        # other compressed_segmentation block size: "bs4" or "bs16x8x4"
-        dims = [int(v) for v in c["enc"][2:].split("x")]
-        dims = dims * 3 if len(dims) == 1 else dims
-        for s in info["scales"]:
+        # other compressed_segmentation block size: "bs4" or "bs16x8x4"; "bs8/4/16x16x4" gives
+        # the scales DIFFERENT block sizes (scale j gets entry j, cyclically)
+        per_scale = []
+        for part in c["enc"][2:].split("/"):
+            dims = [int(v) for v in part.split("x")]
+            per_scale.append(dims * 3 if len(dims) == 1 else dims)
+        for j, s in enumerate(info["scales"]):
             if s.get("encoding") == "compressed_segmentation":
-                s["compressed_segmentation_block_size"] = dims
+                s["compressed_segmentation_block_size"] = per_scale[j % len(per_scale)]
     for cs in _extra_chunkings(c["m"]):
         # the format allows several entries in chunk_sizes: declare one more chunking
         for s in info["scales"]:
